@@ -53,7 +53,7 @@ class Fn:
         self.ensures = list(ensures)     # [(label, expr)]
         self.loops = loops or {}         # ordinal -> {'invariant': [(label, expr)], 'decreases': expr}
         self.rules = list(rules)         # unit-specific Rule objects (applied after the global table)
-        self.inject = list(inject)       # [(regex, ghost_text[, opts])] ghost text appended to (opts 'before': prepended to) the first (opts 'all': every) line matching regex
+        self.inject = list(inject)       # [(regex, ghost_text[, opts])] ghost text appended to (opts 'before': prepended to; 'after_block': appended behind the closing brace of the block this line opens) the first (opts 'all': every) line matching regex
         self.sig_rules = list(sig_rules)  # Rule objects applied to the signature
         self.decreases = decreases
         self.label = label or ((owner + '::' if owner else '') + name)
@@ -172,6 +172,30 @@ def assemble(template, fns, twins=False, repo=REPO):
             for bi, bl in enumerate(body_lines):
                 if re.search(rx, bl):
                     g = ghost.replace('\n', ' ')
+                    if 'after_block' in opts:
+                        # the ghost text goes behind the closing brace of the block whose header this line is (brace
+                        # counting from the first `{` at or after the match; string / comment braces are not expected here)
+                        depth = 0
+                        opened = False
+                        end = None
+                        for bj in range(bi, len(body_lines)):
+                            code = body_lines[bj].split('//')[0]
+                            for ch in code:
+                                if ch == '{':
+                                    depth += 1
+                                    opened = True
+                                elif ch == '}':
+                                    depth -= 1
+                            if opened and depth <= 0:
+                                end = bj
+                                break
+                        if end is None:
+                            raise rustscan.ScanError(f'lost anchor: block opened at /{rx}/ does not close in {fn.label}')
+                        body_lines[end] = body_lines[end] + ' ' + g
+                        done = True
+                        if 'all' not in opts:
+                            break
+                        continue
                     if 'before' in opts:
                         ind = re.match(r'\s*', bl).group(0)
                         body_lines[bi] = ind + g + ' ' + bl.lstrip()
